@@ -17,8 +17,15 @@ for d in sorted(glob.glob("/verif/seeded/*")):
     subprocess.check_call(["git", "-C", "/repo", "worktree", "add", "-q", "--detach", wt, "HEAD"])
     try:
         p = subprocess.run(["git", "-C", wt, "apply", os.path.join(d, "patch.diff")], stdout=subprocess.PIPE, stderr=subprocess.STDOUT, text=True)
+        at = "HEAD"
+        if p.returncode != 0 and m.get("confirmed_at_repo_commit"):
+            # the change was written against an earlier fix level: judge it on that tree
+            subprocess.call(["git", "-C", "/repo", "worktree", "remove", "--force", wt])
+            at = m["confirmed_at_repo_commit"]
+            subprocess.check_call(["git", "-C", "/repo", "worktree", "add", "-q", "--detach", wt, at])
+            p = subprocess.run(["git", "-C", wt, "apply", os.path.join(d, "patch.diff")], stdout=subprocess.PIPE, stderr=subprocess.STDOUT, text=True)
         if p.returncode != 0:
-            m["final_check"] = {"verdict": "patch-does-not-apply-to-current-HEAD", "detail": p.stdout[-300:]}
+            m["final_check"] = {"verdict": "patch-does-not-apply", "detail": p.stdout[-300:]}
         else:
             props = [prop] + [q for q in m.get("checks", {}) if q != prop]
             res = {}
@@ -27,6 +34,7 @@ for d in sorted(glob.glob("/verif/seeded/*")):
                 c = subprocess.run(["/verif/check", q, "quick"], env=e, stdout=subprocess.PIPE, stderr=subprocess.STDOUT, text=True)
                 rules = [l.strip()[6:180] for l in c.stdout.splitlines() if l.startswith("  rule=")]
                 res[q] = {"exit": c.returncode, "verdict": {1: "caught", 0: "missed", 2: "machinery"}.get(c.returncode), "budget_s": float(budget), "rules": rules[:3]}
+            res["applied_on"] = at
             m["final_check"] = res
         json.dump(m, open(mp, "w"), indent=1)
         print(name, json.dumps(m["final_check"])[:200], flush=True)
